@@ -30,9 +30,10 @@ class OneWayBarrier : public galois::substrate::Barrier {
   std::condition_variable cond;
   unsigned count;
   unsigned total;
+  unsigned generation;
 
 public:
-  OneWayBarrier(unsigned p) { reinit(p); }
+  OneWayBarrier(unsigned p) : generation(0) { reinit(p); }
 
   virtual ~OneWayBarrier() {}
 
@@ -43,9 +44,16 @@ public:
 
   virtual void wait() {
     std::unique_lock<std::mutex> tmp(lock);
+    unsigned gen = generation;
     count += 1;
-    cond.wait(tmp, [this]() { return count >= total; });
-    cond.notify_all();
+    if (count >= total) {
+      // last arriver: start the next phase before anyone can re-enter
+      count = 0;
+      generation += 1;
+      cond.notify_all();
+    } else {
+      cond.wait(tmp, [this, gen]() { return gen != generation; });
+    }
   }
 
   virtual const char* name() const { return "OneWayBarrier"; }
@@ -69,11 +77,7 @@ public:
 
   virtual void wait() {
     barrier1.wait();
-    if (galois::substrate::ThreadPool::getTID() == 0)
-      barrier1.reinit(total);
     barrier2.wait();
-    if (galois::substrate::ThreadPool::getTID() == 0)
-      barrier2.reinit(total);
   }
 
   virtual const char* name() const { return "SimpleBarrier"; }
